@@ -183,6 +183,14 @@ def run(prop: str, tier: str, seed: int) -> int:
     if cov["divergences"]:
         print(f"DIVERGENCE property={prop}: {cov['divergent_edges']} edges and {cov['trace_steps_divergent']} "
               f"trace steps where the code disagrees with the Impl layer (Prop verdicts were taken on the observed behaviour)")
+    if prop == "C01" and (tier == "thorough" or os.environ.get("VERIF_SUITE_TRACES") == "1"):
+        # the repository's own test suite as a trace source: every configuration one of its interpreters shows a
+        # subscriber is checked by TLC against Legal (spec/SuiteLegal.tla)
+        from .. import suite
+        scov, sviol, serr = suite.run_suite_traces()
+        cov.update(scov)
+        violations += sviol
+        errors += serr
     if not cov["samples"]:
         cov["samples"] = [{"note": "no sample"}]
     return report.finalize(prop, tier, seed, t0, violations=violations, coverage=cov,
